@@ -660,13 +660,13 @@ func main() {
 		n(5), p(n(5)), p(n(6)), ty.Sl(b("int")), n(6), p(n(7)), p(n(17)), b("complex128"), n(3)}
 	keys := []*ty.Ty{b("int"), b("string"), n(0), n(5), ty.Ar(2, b("int")), b("float64")}
 	results := []*ty.Ty{b("int"), b("string"), p(n(5)), ty.Sl(b("int")), n(5), b("bool"), b("float64"), n(1)}
-	cap, maxLen, nRandom := 6, 6, 4
+	cap, maxLen, nRandom := 6, 7, 8
 	if *thorough {
 		elems = append(elems, b("int8"), b("uint64"), b("float32"), b("int32"), ty.Ar(2, b("int")), p(b("int")), ty.Sl(b("string")),
 			ty.M(b("string"), b("int")), n(14), n(10), p(n(8)), n(20), n(16), ty.Sl(p(n(5))), n(11), n(22), ty.Sl(b("byte")))
 		keys = append(keys, n(1), n(2), b("bool"), b("uint8"), n(14), ty.Ar(2, n(5)))
 		results = append(results, p(n(6)), n(0), b("uint8"), ty.M(b("string"), b("int")))
-		cap, maxLen, nRandom = 8, 10, 16
+		cap, maxLen, nRandom = 10, 12, 40
 	}
 	want := map[string]bool{}
 	for _, pl := range strings.Split(*plugins, ",") {
